@@ -38,7 +38,7 @@ def checkViews (res : List String) (k : Nat) (V : TA) : Except String (List Stri
   if !(seteq used V.states) || used.length != (dedupL used).length then
     f := f ++ [s!"violation step {k} GetUsedStates={used} expected {V.states}"]
   let te ← getE (kv res s!"te{k}") "missing te"
-  if te != (bchar V.rules.isEmpty).toString then f := f ++ [s!"violation step {k} AreTransitionsEmpty={te}"]
+  if te != "-" && te != (bchar V.rules.isEmpty).toString then f := f ++ [s!"violation step {k} AreTransitionsEmpty={te}"]
   let down ← getE (kv res s!"down{k}") "missing down"
   for item in splitC down '/' do
     match item.splitOn "@" with
@@ -70,6 +70,12 @@ partial def go (steps : List String) (res : List String) (k : Nat) (pool : List 
     let mut pool' := pool
     let mut nmut := nmut
     match op with
+    | "opt" => pure ()
+    | "te" =>
+      -- explicit AreTransitionsEmpty (non-const: it unshares the rule table, the value must not change)
+      let A ← ent 1
+      let v ← getE (kv res s!"tev{k}") "missing tev"
+      if v != (bchar A.rules.isEmpty).toString then f := f ++ [s!"violation step {k} AreTransitionsEmpty={v}"]
     | "new" => pool' := pool ++ [some ⟨[], []⟩]
     | "def" =>
       let A ← getE (parts[1]? >>= parseTA?) "bad def"
